@@ -242,6 +242,24 @@ void c19_case(Ctx& c, Rng& r) {
             vec.push_back(got);
             accepted += got;
         }
+        // cap, positive side: a nonce whose digest has exactly 24 leading zero bits (mined offline for this fixed input, the
+        // digest is re-checked here) meets every difficulty from 1 to 24 and, through the cap, every difficulty above
+        {
+            security::StoreWorkInput fixed{};
+            fixed.chunk_id.fill(0x19);
+            fixed.payload_size = 4096;
+            const std::string fixed_name = "c19.bin";
+            fixed.filename_hint = fixed_name;
+            for (const std::uint64_t mined : {91013982ull, 147070256ull}) {
+                const auto dg = tu_storeproof::digest(fixed, mined);
+                if (lz_ref(dg) != 24) { c.violation("harness:C19:mined-nonce-does-not-have-24-zero-bits", J().kv("lz", lz_ref(dg)).str()); break; }
+                for (int dd : {1, 8, 23, 24, 25, 26, 32, 64, 200, 255}) {
+                    c.note("validators.store-cap-checks-with-a-24-bit-nonce");
+                    if (!security::store_pow_valid(fixed, mined, static_cast<std::uint8_t>(dd)))
+                        c.violation(dd <= 24 ? "C19:store:validator-rejects-valid" : "C19:store:cap-of-24-not-applied", J().kv("difficulty", dd).kv("lz", 24).kv("nonce", mined).str());
+                }
+            }
+        }
         // cap: difficulties above 24 behave as 24
         {
             const auto nonce = base;
